@@ -576,6 +576,13 @@ func gcsSortedRule(p *Program, r *Report, rule string) int {
 		return out
 	}
 	sortedAt = func(fn *ssa.Function, v ssa.Value, at *ssa.BasicBlock, depth int) (bool, string) {
+		for _, b := range fn.Blocks {
+			for _, in := range b.Instrs {
+				if c, ok := in.(*ssa.Call); ok && sortCallOn(c, v) && (b == at || b.Dominates(at)) {
+					return true, "sorted at " + p.Pos(c.Pos())
+				}
+			}
+		}
 		// a window of a sorted slice is sorted (benign variant b-c13-v3: `pending = pending[1:]` in the merge loop): look
 		// through φ and slicing to the slices the value can stand for
 		switch v.(type) {
@@ -588,6 +595,16 @@ func gcsSortedRule(p *Program, r *Report, rule string) int {
 					return
 				}
 				seen[x] = true
+				if x != v {
+					for _, b := range fn.Blocks {
+						for _, in := range b.Instrs {
+							if c, ok := in.(*ssa.Call); ok && sortCallOn(c, x) && (b == at || b.Dominates(at)) {
+								roots[x] = true
+								return
+							}
+						}
+					}
+				}
 				switch y := x.(type) {
 				case *ssa.Phi:
 					for _, e := range y.Edges {
@@ -610,13 +627,6 @@ func gcsSortedRule(p *Program, r *Report, rule string) int {
 					how = h
 				}
 				return true, how + " (read through a window of it)"
-			}
-		}
-		for _, b := range fn.Blocks {
-			for _, in := range b.Instrs {
-				if c, ok := in.(*ssa.Call); ok && sortCallOn(c, v) && (b == at || b.Dominates(at)) {
-					return true, "sorted at " + p.Pos(c.Pos())
-				}
 			}
 		}
 		// the result of an in-repo helper that sorts what it returns (third benign round: h.sortedHashes(data))
